@@ -706,14 +706,39 @@ func runC08(c *core.Ctx) {
 			for _, in := range ssax.Find(f, ssax.CallTo("iface:(pkg/index.Filter).Execute")) {
 				exec = in.(*ssa.Call)
 			}
+			// the two accumulators: loop-header phis of type posting.List fed (on some edge) by result #0 / #1 of Execute
 			var pr, pt *ssa.Phi
-			for _, b := range f.Blocks {
-				for _, in := range b.Instrs {
-					if p, ok := in.(*ssa.Phi); ok {
-						if p.Comment == "result" && pr == nil {
-							pr = p
+			fedBy := func(p *ssa.Phi, idx int) bool {
+				seen := map[ssa.Value]bool{}
+				var walk func(v ssa.Value, d int) bool
+				walk = func(v ssa.Value, d int) bool {
+					if v == nil || seen[v] || d > 8 {
+						return false
+					}
+					seen[v] = true
+					switch x := v.(type) {
+					case *ssa.Extract:
+						return exec != nil && x.Tuple == ssa.Value(exec) && x.Index == idx
+					case *ssa.Phi:
+						for _, e := range x.Edges {
+							if walk(e, d+1) {
+								return true
+							}
 						}
-						if p.Comment == "resultTS" && pt == nil {
+					}
+					return false
+				}
+				return walk(p, 0)
+			}
+			for _, b := range f.Blocks {
+				if !isLoopHeader(b) {
+					continue
+				}
+				for _, in := range b.Instrs {
+					if p, ok := in.(*ssa.Phi); ok && strings.HasSuffix(p.Type().String(), "posting.List") {
+						if pr == nil && fedBy(p, 0) {
+							pr = p
+						} else if pt == nil && fedBy(p, 1) {
 							pt = p
 						}
 					}
